@@ -249,8 +249,8 @@ pub fn run_c19(ctx: &mut Ctx) {
         }
     }
     // Injected failures: every failing subset of sequences of 1..=5
-    // connections (quick: up to 4), with an accepted keepalive value.
-    let max_len = if ctx.quick() { 4 } else { 5 };
+    // connections, with an accepted keepalive value (or none).
+    let max_len = 5;
     for len in 1..=max_len {
         for mask in 0..(1u32 << len) {
             let script: Vec<bool> = (0..len).map(|i| mask & (1 << i) != 0).collect();
@@ -260,5 +260,148 @@ pub fn run_c19(ctx: &mut Ctx) {
                 if run_case(ctx, keepalive, &script, burst) { failures += 1 }
             }
         }
+    }
+}
+
+
+//------------ C36, end to end -----------------------------------------------
+
+/// C36 through the real listener: connections from several loopback source
+/// addresses, opened by concurrent client threads, are answered; while they
+/// are open the per-address list must be strictly sorted, contain exactly
+/// the source addresses and show the number of open connections of each;
+/// after all have closed every count must return to zero.
+fn run_metrics_case(ctx: &mut Ctx, input: &Value) {
+    use std::net::{IpAddr, Ipv4Addr};
+    let Some(plan) = input["clients"].as_array().and_then(|a| a.iter().map(|c| {
+        Some((c["host"].as_u64()? as u8, c["conns"].as_u64()? as usize))
+    }).collect::<Option<Vec<(u8, usize)>>>()) else { ctx.count("bad-input"); return };
+    if plan.is_empty() || plan.len() > 8 || plan.iter().any(|p| p.1 == 0 || p.1 > 4 || p.0 == 0) {
+        ctx.count("bad-input");
+        return
+    }
+    let runtime = tokio::runtime::Builder::new_multi_thread()
+        .worker_threads(3).enable_all().build().expect("runtime");
+    let listener = TcpListener::bind("127.0.0.1:0").expect("bind");
+    listener.set_nonblocking(true).unwrap();
+    let addr: SocketAddr = listener.local_addr().unwrap();
+    let dir = std::env::temp_dir();
+    let mut config = Config::default_with_paths(dir.join("none.conf"), dir.join("none-cache"));
+    config.rtr_client_metrics = true;
+    let history = SharedHistory::from_config(&config);
+    let metrics = Arc::new(RtrServerMetrics::new(true));
+    let future = {
+        let _guard = runtime.enter();
+        routinator::rtr::rtr_listener(
+            history, metrics.clone(), &config, NotifySender::new(), Some(listener)
+        ).unwrap_or_else(|_| panic!("rtr_listener failed"))
+    };
+    runtime.spawn(future);
+
+    // One client thread per plan entry, all at once.
+    let handle = runtime.handle().clone();
+    let threads: Vec<_> = plan.iter().map(|(host, conns)| {
+        let (host, conns, handle) = (*host, *conns, handle.clone());
+        std::thread::spawn(move || {
+            let mut socks = Vec::new();
+            let mut results = Vec::new();
+            for _ in 0..conns {
+                let sock = handle.block_on(async {
+                    let sock = tokio::net::TcpSocket::new_v4()?;
+                    sock.bind(SocketAddr::new(IpAddr::V4(Ipv4Addr::new(127, 0, 0, host)), 0))?;
+                    sock.connect(addr).await
+                }).and_then(|s| s.into_std()).and_then(|s| { s.set_nonblocking(false)?; Ok(s) });
+                match sock {
+                    Ok(mut sock) => {
+                        send_query(&mut sock);
+                        results.push(read_outcome(&mut sock));
+                        socks.push(sock);
+                    }
+                    Err(_) => results.push("connect-failed")
+                }
+            }
+            (socks, results)
+        })
+    }).collect();
+    let mut socks = Vec::new();
+    let mut results = Vec::new();
+    for thread in threads {
+        let (s, r) = thread.join().unwrap();
+        socks.push(s);
+        results.push(r);
+    }
+    let snapshot = |metrics: &RtrServerMetrics| -> (Vec<(IpAddr, usize)>, usize) {
+        (metrics.clients().unwrap().iter().map(|(a, d)| (*a, d.current_connections())).collect(),
+         metrics.global().current_connections())
+    };
+    let (open_list, open_global) = snapshot(&metrics);
+    let mut expected: std::collections::BTreeMap<IpAddr, usize> = Default::default();
+    for (host, conns) in &plan {
+        *expected.entry(IpAddr::V4(Ipv4Addr::new(127, 0, 0, *host))).or_insert(0) += conns;
+    }
+    drop(socks);
+    // The server notices the closed connections asynchronously.
+    let deadline = std::time::Instant::now() + HANG;
+    let (mut closed_list, mut closed_global) = snapshot(&metrics);
+    while (closed_global != 0 || closed_list.iter().any(|x| x.1 != 0))
+        && std::time::Instant::now() < deadline
+    {
+        std::thread::sleep(Duration::from_millis(5));
+        (closed_list, closed_global) = snapshot(&metrics);
+    }
+    runtime.shutdown_background();
+
+    let show = |l: &[(IpAddr, usize)]| l.iter().map(|(a, c)| format!("{a}:{}", *c as isize))
+        .collect::<Vec<_>>().join(",");
+    let observed = json!({
+        "results": results, "while_open": show(&open_list), "global_while_open": open_global as isize,
+        "after_close": show(&closed_list), "global_after_close": closed_global as isize,
+    });
+    ctx.case_oracle_only(input, &format!("{} | {}", show(&open_list), show(&closed_list)));
+    ctx.nontrivial(format!("{plan:?}"));
+    ctx.count("e2e-cases");
+    if results.iter().flatten().any(|r| *r != "served") {
+        ctx.oracle_fail("e2e-connection-not-served", "a connection was not answered", input, observed.clone());
+        return
+    }
+    if !open_list.windows(2).all(|w| w[0].0 < w[1].0) {
+        ctx.oracle_fail("e2e-list-not-strictly-sorted", "client list not strictly sorted", input, observed.clone());
+    }
+    let listed: std::collections::BTreeMap<IpAddr, usize> = open_list.iter().cloned().collect();
+    if listed != expected || open_list.len() != expected.len() {
+        ctx.oracle_fail("e2e-open-counts-wrong",
+            &format!("while all connections are open the list is {} but the open connections are {expected:?}", show(&open_list)),
+            input, observed.clone());
+    }
+    if open_global != expected.values().sum::<usize>() {
+        ctx.oracle_fail("e2e-global-count-wrong", "global open-connection count differs from the open connections", input, observed.clone());
+    }
+    if closed_global != 0 || closed_list.iter().any(|x| x.1 != 0) {
+        ctx.oracle_fail("e2e-counts-not-zero-after-close",
+            &format!("after every connection was closed the counts are {} global {}", show(&closed_list), closed_global as isize),
+            input, observed.clone());
+    }
+    if closed_list.iter().map(|x| x.0).collect::<Vec<_>>() != expected.keys().copied().collect::<Vec<_>>() {
+        ctx.oracle_fail("e2e-address-lost", "an address disappeared from the list", input, observed);
+    }
+}
+
+pub fn run_c36e(ctx: &mut Ctx) {
+    ctx.rule = "one case = one real rtr_listener with per-client metrics + concurrent client \
+        threads opening 1-4 answered connections each from loopback source addresses \
+        127.0.0.x (repeated and distinct), checked while open and after close; distinct = \
+        distinct plans".into();
+    if let Some(inputs) = ctx.replay_inputs() {
+        for input in inputs { run_metrics_case(ctx, &input) }
+        return
+    }
+    for input in ctx.corpus("C36e") { run_metrics_case(ctx, &input) }
+    let n = ctx.budget(40, 600);
+    for _ in 0..n {
+        let clients = ctx.rng.range(1, 5);
+        let plan: Vec<Value> = (0..clients).map(|_| json!({
+            "host": ctx.rng.range(1, 6), "conns": ctx.rng.range(1, 3)
+        })).collect();
+        run_metrics_case(ctx, &json!({"clients": plan}));
     }
 }
